@@ -90,7 +90,11 @@ def _shift_block(blk, loff, boff, poff, dst, target, sp):
     return nb
 
 
-def inlined(prog, f, select, depth=2, max_blocks=6000):
+def _is_const(o):
+    return isinstance(o, dict) and "c" in o
+
+
+def inlined(prog, f, select, depth=2, max_blocks=6000, allow_closures=False):
     """select(caller_fn, callee_fn, call_term) -> bool. Returns f itself when nothing is inlined."""
     d = {"path": f.path, "kind": f.kind, "span": f.span, "parent": f.parent, "locals": list(f.locals), "argc": f.argc,
          "names": dict(f.names) if isinstance(f.names, dict) else f.names, "blocks": copy.deepcopy(f.blocks),
@@ -105,9 +109,13 @@ def inlined(prog, f, select, depth=2, max_blocks=6000):
             if t["k"] != "call" or blk.get("cleanup"):
                 continue
             h = prog.fn(f.crate, callee(t))
-            if h is None or h.kind == "Closure" or h.path == f.path or "p" in t["dst"] and False:
+            if h is None or h.path == f.path:
                 continue
-            if len(t["args"]) != h.argc:
+            if h.kind == "Closure":
+                # a direct call of a local closure: (env, (a1, .., an)) - the body takes the arguments untupled
+                if not (allow_closures and len(t["args"]) == 2 and not _is_const(t["args"][1])):
+                    continue
+            elif len(t["args"]) != h.argc:
                 continue
             if not select(f, h, t):
                 continue
@@ -126,8 +134,16 @@ def inlined(prog, f, select, depth=2, max_blocks=6000):
             d["promoted"] += list(h.promoted)
             for hb in h.blocks:
                 d["blocks"].append(_shift_block(hb, loff, boff, poff, t["dst"], t.get("t"), t.get("sp")))
-            for k, a in enumerate(t["args"]):
-                blk["st"].append({"k": "assign", "dst": {"l": loff + 1 + k}, "rv": {"k": "use", "o": a}, "sp": t.get("sp")})
+            if h.kind == "Closure":
+                blk["st"].append({"k": "assign", "dst": {"l": loff + 1}, "rv": {"k": "use", "o": t["args"][0]}, "sp": t.get("sp")})
+                tup = t["args"][1].get("mv") or t["args"][1].get("cp")
+                for k in range(h.argc - 1):
+                    src = {"l": tup["l"], "p": list(tup.get("p", [])) + [{"f": str(k)}]}
+                    blk["st"].append({"k": "assign", "dst": {"l": loff + 2 + k}, "rv": {"k": "use", "o": {"cp": src}},
+                                      "sp": t.get("sp")})
+            else:
+                for k, a in enumerate(t["args"]):
+                    blk["st"].append({"k": "assign", "dst": {"l": loff + 1 + k}, "rv": {"k": "use", "o": a}, "sp": t.get("sp")})
             blk["term"] = {"k": "goto", "t": boff, "inlined": h.path}
             changed = True
     if not changed:
@@ -167,3 +183,75 @@ def small_helper(prog, keep=None, max_blocks=120, max_callers=3):
             return False
         return callers_count(prog, caller.crate).get(h.path, 0) <= max_callers
     return select
+
+
+# ---------------------------------------------------------------------------------------------------------------
+# A whole-crate view in which functions the rules do not know by name are transparent.
+KNOWN_STYLUA = {
+    "config::read_config_file", "config::read_and_apply_overrides", "config::ConfigResolver::<'_>::new",
+    "config::ConfigResolver::<'_>::get_configuration_search_root", "config::ConfigResolver::<'_>::load_configuration",
+    "config::ConfigResolver::<'_>::load_configuration_for_stdin",
+    "config::ConfigResolver::<'_>::lookup_config_file_in_directory", "config::ConfigResolver::<'_>::find_config_file",
+    "config::ConfigResolver::<'_>::search_config_locations", "config::find_toml_file", "config::find_ignore_file_path",
+    "config::load_overrides", "opt::Color::should_use_color", "opt::Color::should_use_color_stderr",
+    "output_diff::output_diff", "output_diff::output_diff_unified", "output_diff::output_diff_json",
+    "convert_parse_error_to_json", "create_diff", "format_file", "format_string", "get_ignore", "is_explicitly_provided",
+    "should_respect_ignores", "path_is_stylua_ignored", "format", "main",
+}
+
+
+class _CrateView:
+    def __init__(self, name, config, adts, fns):
+        self.name = name
+        self.config = config
+        self.adts = adts
+        self.fns = fns
+        self.by_path = {}
+        for f in fns:
+            self.by_path.setdefault(f.path, f)
+
+
+def crate_view(prog, crate, known, max_blocks=200, max_callers=3):
+    """a copy of `prog` in which every function of `crate` that is *not* in `known` (new private helpers: few call
+    sites, small, not a closure, not a trait impl) is inlined into its callers and removed from the function list"""
+    cached = getattr(prog, "_views", None)
+    if cached is None:
+        cached = {}
+        prog._views = cached
+    key = (crate, max_blocks, max_callers)
+    if key in cached:
+        return cached[key]
+    cnt = callers_count(prog, crate)
+    c0 = prog.crates[crate]
+    helpers = set()
+    for h in c0.fns:
+        if h.kind == "Closure" or h.path in known or h.path.startswith("<") or "::{" in h.path or "::tests::" in h.path:
+            continue
+        if h.impl_trait or len(h.blocks) > max_blocks or len(h.blocks) <= 2:
+            continue
+        n = cnt.get(h.path, 0)
+        if 1 <= n <= max_callers:
+            helpers.add(h.path)
+    if not helpers:
+        cached[key] = prog
+        return prog
+    view = copy.copy(prog)
+    view.crates = dict(prog.crates)
+    view._views = {}
+    view._callers_count = None
+    newfns = []
+    for f in c0.fns:
+        if f.path in helpers:
+            continue
+        g = inlined(prog, f, lambda caller, h, t: h.path in helpers, depth=3)
+        if g is not f:
+            g.prog = view
+        newfns.append(g)
+    view.crates[crate] = _CrateView(c0.name, c0.config, c0.adts, newfns)
+    try:
+        view._callers_count = None
+    except AttributeError:
+        pass
+    view.inlined_helpers = sorted(helpers)
+    cached[key] = view
+    return view
